@@ -1,22 +1,22 @@
 CONSTANTS
-  Sides = {"client", "server"}
-  MaxSid = 1
-  MaxFrames = 5
+  Sides = {"server"}
+  MaxSid = 3
+  MaxFrames = 6
   MinFrames = 0
   Names = {"a"}
   BodyPlans <- PlansTiny
   DataCuts = {3}
   Conts = {0, 1}
-  MaxOther = 1
+  MaxOther = 0
   MaxGoAway = 1
-  AllowUnnamed = FALSE
+  AllowUnnamed = TRUE
   AllowReqTrailers = FALSE
   AllowClientGoAway = TRUE
   AllowTimer = TRUE
-  AllowEarlyEnd = TRUE
-  MaxCall = 5
-  FrameAligned = FALSE
-  MaxAhead = 5
+  AllowEarlyEnd = FALSE
+  MaxCall = 4
+  FrameAligned = TRUE
+  MaxAhead = 1
   MaxTimeouts = 0
   EndKinds = {"close"}
   KeepCalls = FALSE
@@ -24,4 +24,4 @@ CONSTANTS
 INIT Init
 NEXT Next
 VIEW ViewNoCalls
-INVARIANTS TypeOK Agrees EnvWellFormed NeverBroken HpackInSync Transparent EachNamedStreamOnce StreamsAgree
+INVARIANTS TypeOK Agrees Reassembly EnvWellFormed NeverBroken HpackInSync Transparent EachNamedStreamOnce StreamsAgree
